@@ -17,7 +17,7 @@ META = {
     "level": "exploration",
     "rule": ("per format (csep-csv, zmap, jma-csv, ingv_horus, ndk): files written by a per-format writer model from random event lists of "
              "1..200 records (incl. exactly 1), full coordinate ranges, years 1900..2100, leap days, 23:59:59->00:00:00 roll-overs, seconds "
-             "written as 60 / 60.0, HORUS rows with minute 60 / hour 24 / seconds >= 60, JMA offsets +0900/+0000/-0330/+0530, ZMAP with decimal-year "
+             "written as 60 / 60.0, HORUS rows with minute 60 / hour 24 / seconds >= 60, JMA offsets +0900/+0000/-0330/+0530/-0030/-0045/+0030/-0100/-0930, NDK tensor components touching the exponent, ZMAP with decimal-year "
              "and integer-year first time column and with/without the optional error columns, csep-csv with/without header and fractional seconds; "
              "loaded through csep.load_catalog(type=...). Non-trivial: file has >= 2 records and a roll-over, a non-UTC offset or a negative "
              "coordinate; distinct = digest(file text)."),
@@ -110,7 +110,8 @@ def write_jma(path, ev, r):
     with open(path, "w", newline="") as f:
         f.write("timestamp;longitude;latitude;depth;magnitude\n")
         for e in ev:
-            off = int(r.choice([540, 540, 0, -210, 330, 60]))
+            # offsets on both sides of UTC, incl. less than an hour from it (-00:30: the hour digits carry no sign) and a whole negative hour
+            off = int(r.choice([540, 540, 0, -210, 330, 60, -30, -45, 30, -60, -570]))
             local = e["t"] + datetime.timedelta(minutes=off)
             sign = "+" if off >= 0 else "-"
             ts = local.strftime("%Y-%m-%dT%H:%M:%S") + ".%06d" % local.microsecond + "%s%02d%02d" % (sign, abs(off) // 60, abs(off) % 60)
@@ -202,7 +203,11 @@ def write_ndk(path, ev, r):
             dtype_ = str(r.choice(["FREE", "FREE", "FIX ", "BDY "]))       # depth type: free inversion, fixed, body-wave constrained
             line3 = "CENTROID: %8.1f%4.1f%7.2f%5.2f%8.2f%5.2f%6.1f%5.1f %s S-20050322125201" % (tshift, terr, 13.76, 0.06, -89.08, 0.09, 162.8, 12.5, dtype_)
             assert line3[59:63] == dtype_, line3
-            line4 = "%2d  0.838 0.201 -0.005 0.231 -0.833 0.270  1.050 0.121 -0.369 0.161  0.044 0.240" % expo
+            # moment-tensor line: exponent (I2) immediately followed by Mrr (F7.3) - a component <= -10 or >= 100 (in units of 10**exponent)
+            # fills its seven columns and touches the exponent, which is legal in the fixed-width format
+            mrr = float(r.choice([0.838, 0.838, -10.500, 123.456, -1.234, -99.999]))
+            line4 = "%2d%7.3f 0.201 -0.005 0.231 -0.833 0.270  1.050 0.121 -0.369 0.161  0.044 0.240" % (expo, mrr)
+            assert len("%7.3f" % mrr) == 7
             line5 = "V10   1.581 56  12  -0.537 23 140  -1.044 24 241 %7.3f   9 29  142 133 72   66" % m0
             assert line5[49:56].strip() == "%.3f" % m0, line5[49:56]
             f.write("\n".join([line1, line2, line3, line4, line5]) + "\n")
